@@ -109,6 +109,7 @@ Definition guarded_triples (cs : list eq_case) : N :=
 Record ht_case := mk_ht_case {
   hc_test : N;                  (* what hash-table-test reported: 0 eq, 1 eql, 2 equal, 3 equalp *)
   hc_pool : list ref;
+  hc_tobs : list (list N);      (* the reported test applied by the implementation to every ordered pair of pool keys *)
   hc_ops : list hop;
   hc_obs : list hobs
 }.
@@ -131,17 +132,35 @@ Definition hobs_eqb (a b : hobs) : bool :=
   | OFault, OFault | OBadKey, OBadKey => true
   | _, _ => false
   end.
-Definition ht_agree (c : ht_case) : bool := all2 hobs_eqb (t_run (hc_pool c) [] (hc_ops c)) (hc_obs c).
+Definition ht_agree (c : ht_case) : bool :=
+  all2 hobs_eqb (t_run (hc_pool c) [] (hc_ops c)) (hc_obs c) &&
+  (* the model's test on the pool is the implementation's *)
+  all2 (all2 N.eqb) (map (fun a => map (fun b => b2n (test_fn (hc_test c) a b)) (hc_pool c)) (hc_pool c)) (hc_tobs c).
+(* the guard on which the observed behaviour is JUDGED: keys of the simple kinds, references consistent
+   (one cell one value; nil and t one word each), operations in range.  By simple_pool_ok (Proofs6) such a
+   pool satisfies pool_ok for eql, so the unchanged code is a finite map there by table_refines_map. *)
+Definition const_wordsb (a b : ref) : bool :=
+  match r_obj a, r_obj b with
+  | Nil, Nil | Tru, Tru => N.eqb (r_word a) (r_word b)
+  | _, _ => true
+  end.
 Definition ht_guard (c : ht_case) : bool :=
-  pool_ok (hc_pool c) (pool_test (hc_test c) (hc_pool c)) &&
+  simple_pool (hc_pool c) &&
+  forallb (fun a => forallb (fun b => consistentb a b && const_wordsb a b) (hc_pool c)) (hc_pool c) &&
   forallb (op_in_range (List.length (hc_pool c))) (hc_ops c).
-(* the observed behaviour is that of the finite map under the reported test *)
+(* the observed test as a relation on pool indices *)
+Definition tobs_rel (c : ht_case) (i j : nat) : bool := N.eqb (nth j (nth i (hc_tobs c) []) 2%N) 1.
+(* the observed behaviour is that of the finite map under the test AS THE IMPLEMENTATION ANSWERS IT *)
 Definition ht_spec_ok (c : ht_case) : bool :=
-  all2 hobs_eqb (s_run (hc_pool c) (pool_test (hc_test c) (hc_pool c)) [] (hc_ops c)) (hc_obs c).
+  forallb (forallb (fun x => N.ltb x 2)) (hc_tobs c) &&
+  all2 hobs_eqb (s_run (hc_pool c) (tobs_rel c) [] (hc_ops c)) (hc_obs c).
 Definition check_ht_case (c : ht_case) : N := code (ht_agree c) (negb (ht_guard c) || ht_spec_ok c).
 Definition check_all_ht := check_all_from check_ht_case 0%N.
 Definition ht_guarded (cs : list ht_case) : N := N.of_nat (List.length (filter ht_guard cs)).
 Definition ht_spec_violations (cs : list ht_case) : N := N.of_nat (List.length (filter (fun c => negb (ht_spec_ok c)) cs)).
+(* self-check of the guard theorem on the run's pools: a guarded pool satisfies pool_ok for eql *)
+Definition ht_guard_implies_pool_ok (cs : list ht_case) : N :=
+  N.of_nat (List.length (filter (fun c => ht_guard c && N.eqb (hc_test c) 1 && negb (pool_ok (hc_pool c) (pool_test 1 (hc_pool c)))) cs)).
 
 (* ---- 3. types ------------------------------------------------------------------------------------ *)
 Inductive ty_case :=
